@@ -68,8 +68,8 @@ PROPS = {
     },
     "C05": {
         "n": {"quick": 60, "thorough": 1200}, "diff_is_failure": True, "trivial_outs": {"i1", ""}, "run_timeout": 2400,
-        "rule": "raw byte streams on one connection: 1-12 (sometimes 150-250) requests per write drawn from the string/key catalogue plus hostile shapes (CR LF inside command names and arguments, fake replies inside names, empty/null arrays, non-array frames, inline PING, nested arrays, 600-byte noise arguments), optionally followed by QUIT or by one of 8 protocol violations, sent whole / byte-at-a-time / cut inside CR LF / 2-6 random cuts; the harness collects everything the server sends until quiet, decodes it with its own RESP reader and compares the canonical frame sequence and the close flag with the model; then PING on the same and on another connection",
-        "explanation": "theorems: one reply per frame, reads compose, segmentation independence, reply = one frame, client decodes exactly the replies; tie: raw-stream differential runs",
+        "rule": "(1) the reply path under partial writes: BIG histories - SET of a 64 KiB / 4 KiB value containing every byte value, CR LF and reply look-alikes at position-dependent places, then 128 / 2000 GETs and a PING in one write to a client that starts reading 60 ms later: 8 MiB of replies, more than the socket takes in one write, so flush sees partial writes and a full socket; every bulk reply compared by length and position-sensitive checksum with the model's; (2) raw byte streams on one connection: 1-12 (sometimes 150-250) requests per write drawn from the string/key catalogue plus hostile shapes (CR LF inside command names and arguments, fake replies inside names, empty/null arrays, non-array frames, inline PING, nested arrays, 600-byte noise arguments), optionally followed by QUIT or by one of 8 protocol violations, sent whole / byte-at-a-time / cut inside CR LF / 2-6 random cuts; the harness collects everything the server sends until quiet, decodes it with its own RESP reader and compares the canonical frame sequence and the close flag with the model; then PING on the same and on another connection",
+        "explanation": "theorems: one reply per frame, reads compose, segmentation independence, reply = one frame, client decodes exactly the replies; below the serialiser: for every interleaving of sends and flushes and every sequence of socket answers (partial writes, full socket, interruptions) wire ++ pending = sent, a full socket is not an error (flush arithmetic regenerated from connection.rs by the translator); tie: raw-stream and large-reply differential runs",
         "trusted_base": SRV_TB, "assumptions": ["requests contain no RESP3 double frames (f64 text oracle not used at connection level)", "a read never exceeds 8192 bytes in the implementation; pipelines with QUIT or a protocol violation are kept below that"],
     },
     "C06": {
